@@ -141,6 +141,9 @@ func (w *WindowNode) validate() error {
 	if w.PeriodCount != 0 && w.AlignFlag {
 		return errors.New("can only align windows based off time, not count")
 	}
+	if w.PeriodCount < 0 {
+		return errors.New("periodCount must be greater than zero")
+	}
 	if w.PeriodCount != 0 && w.EveryCount <= 0 {
 		return errors.New("everyCount must be greater than zero")
 	}
